@@ -590,6 +590,51 @@ impl<const N: usize> Live<N> {
         drop(huge);
     }
 
+    /// A multi-buffer submission on an indirect queue at the moment the heap cannot supply the indirect
+    /// table: refused (today by a panic, which ends the case) — never published in some other shape that
+    /// the capacity check did not cover.
+    pub fn add_oom(&mut self, c: &mut Case, k: usize) {
+        let bufs: Vec<Vec<u8>> = (0..k).map(|i| vec![i as u8 + 1; 8]).collect();
+        for (i, b) in bufs.iter().enumerate() {
+            hal::name_buffer(b.as_ptr(), 8, &format!("boom{}", i));
+        }
+        let before = self.q.verif_state();
+        let op = format!("queue add_oom k={}", k);
+        crate::c09_drop::fail_next_table(true);
+        let r = {
+            let q = &mut self.q;
+            let refs: Vec<&[u8]> = bufs.iter().map(|b| b.as_slice()).collect();
+            guarded(move || unsafe { q.add(&refs, &mut []) })
+        };
+        let unused = crate::c09_drop::fail_next_table(false);
+        let (evs, _halev) = self.take_evs();
+        match r {
+            Ok(Ok(t)) if !unused => {
+                c.fail(format!("[C01] add of {} buffers on an indirect queue succeeded (token {}) although its indirect table could not be allocated: published as {} with {:?} -> {:?}", k, t, evs, before, self.q.verif_state()));
+                c.step(op, "accepted".to_string());
+                self.stop = true;
+            }
+            Ok(Ok(_)) => {
+                // no table was allocated at all (not reached for k > 1 on an indirect queue)
+                c.step(op, "accepted".to_string());
+                self.stop = true;
+            }
+            Ok(Err(e)) => {
+                if self.q.verif_state() != before || evs != "-" {
+                    c.fail(format!("[C03] refused add had side effects: {} {:?} -> {:?}", evs, before, self.q.verif_state()));
+                }
+                let _ = e;
+                c.step(op, "refused-oom".to_string());
+            }
+            Err(_) => {
+                c.step(op, "refused-oom".to_string());
+                self.stop = true;
+            }
+        }
+        hal::with(|h| h.bufnames.retain(|b| !b.2.starts_with("boom")));
+        let _ = hal::with(|h| std::mem::take(&mut h.violations));
+    }
+
     /// A submission of 65 536 or more (one-byte, device-readable) buffers: far longer than any queue, it
     /// must be refused like any other over-long chain — the count must not be judged modulo 2^16.
     pub fn add_many(&mut self, c: &mut Case, k: usize) {
@@ -739,6 +784,7 @@ impl<const N: usize> Live<N> {
                 }
                 match e {
                     Error::NotReady if can => c.fail("[C03] NotReady although a completion was pending"),
+                    Error::WrongToken if !can && !self.hostile => c.fail(format!("[C03] pop_used({}) = WrongToken although nothing was pending (NotReady: the caller would give up instead of polling again)", token)),
                     Error::WrongToken if peek == Some(token) => c.fail("[C03] WrongToken for the token at the head of the used ring"),
                     _ => {}
                 }
@@ -997,6 +1043,13 @@ pub fn structured<const N: usize>(cfg: QCfg, id: String, mut rng: Rng) -> Case {
             soak(&mut l, &mut c, k);
         }
         l.check_counts(&mut c);
+    }
+    // indirect queues, one case in 12: a multi-buffer submission whose table allocation fails
+    if cfg.indirect && N >= 2 && !l.stop && !c.steps.last().map(|(_, o)| o.starts_with("panic")).unwrap_or(false) && rng.chance(1, 12) && l.q.available_desc() >= 1 {
+        let k = 2 + rng.below(4) as usize;
+        if k <= N {
+            l.add_oom(&mut c, k);
+        }
     }
     // one case in 25 tries a submission of 2^16 or more buffers
     if !l.stop && !c.steps.last().map(|(_, o)| o.starts_with("panic")).unwrap_or(false) && rng.chance(1, 25) {
@@ -1319,6 +1372,9 @@ pub fn run(ctx: &Ctx, prop: &str) -> (Vec<Case>, String, bool, BTreeMap<String, 
         // blocking requests whose wait is ended by an earlier chain's completion (WrongToken): the
         // chain they published stays with the device
         cases.extend(filter_for(prop, crate::c05_notify::foreign_first_cases(ctx, prop)));
+        if matches!(prop, "C03" | "C04") {
+            cases.extend(filter_for(prop, crate::c05_notify::blocking_cases(ctx, prop)));
+        }
         rule.push_str("; blocking requests (add_notify_wait_pop) on a queue with an earlier chain outstanding whose completion the device reports first: WrongToken, own chain still published, shared and counted, history continues to full return");
     }
     if prop == "C04" {
